@@ -27,8 +27,10 @@ def decl_order_lookup(use, fn):
     """Is `use` (a Path node naming the list) inside `DECL.fields.iter().map(|f| .. named.iter().find(|(n, _)| n.v == f.name..) ..)`?"""
     for m in q.walk(fn["body"]):
         if m["k"] == "MethodCall" and m["m"] == "map" and m["args"] and m["args"][0]["k"] == "Closure":
-            recv = q.show(m["recv"])
-            if ".fields.iter()" not in recv.replace(" ", ""):
+            recv = q.show(m["recv"]).replace(" ", "")
+            # the declaration's field list: `decl.fields.iter()`, or a parameter holding it (`field_defs: &[VariantField]`)
+            field_params = [b for p_ in fn.get("params", []) if not p_.get("self") and "Field" in p_.get("ty", "") for b in q.pat_bindings(p_["pat"])]
+            if ".fields.iter()" not in recv and not any(recv == fp + ".iter()" for fp in field_params):
                 continue
             cl = m["args"][0]
             if not any(y is use for y in q.walk(cl["body"])):
@@ -69,7 +71,22 @@ def field_order(ctx, r):
                     n_sites += 1
                     # (a) passed to an ordering helper
                     as_arg = any(c["k"] == "MethodCall" and c["m"].endswith("_in_order") and any(a is u or (a["k"] == "Ref" and a["e"] is u) for a in c["args"]) for c in q.walk(arm["body"]))
-                    ok = as_arg or decl_order_lookup(u, f)
+                    # (b) handed to a helper of this file that takes it in declaration order itself
+                    via_helper = False
+                    for c in q.walk(arm["body"]):
+                        if c["k"] not in ("Call", "MethodCall"):
+                            continue
+                        hn = c["m"] if c["k"] == "MethodCall" else (q.last_seg(c["f"]["p"]) if c["f"]["k"] == "Path" else None)
+                        pos = next((i_ for i_, a in enumerate(c["args"]) if a is u or (a["k"] == "Ref" and a["e"] is u)), None)
+                        h = next((g for g, _ in q.iter_items(items) if g["k"] == "Fn" and g["name"] == hn and g.get("body") is not None), None) if hn and pos is not None else None
+                        if h is None or h is f:
+                            continue
+                        hp = [p_ for p_ in h["params"] if not p_.get("self")]
+                        if pos < len(hp):
+                            pn = q.pat_bindings(hp[pos]["pat"])
+                            huses = [x for x in q.walk(h["body"]) if x["k"] == "Path" and pn and x["p"] == pn[0]]
+                            via_helper = bool(huses) and all(decl_order_lookup(x, h) for x in huses)
+                    ok = as_arg or via_helper or decl_order_lookup(u, f)
                     r.ob(ok, f"{short}:{name}:{nm}:source-order", file, u["l"],
                          f"{name}: the named sub-pattern list `{nm}` is consumed in source order; the fields of a struct or variant are laid out in declaration order, so `P(y = a, x = b)` would compare/bind the wrong components",
                          sample=f"{name}: `{nm}` taken in declaration order")
@@ -411,7 +428,7 @@ def payload_repr(ctx, r):
                 forms = [q.last_seg(p["p"]) for p in q.walk(a["pat"]) if p["k"] == "PTupleStruct" and "PatVariantData" in p["p"]]
                 for form in forms:
                     n += 1
-                    aware = any(y["k"] in ("Path", "PPath") and y.get("p") == "Type::Void" for y in q.walk(a["body"])) or "Type::Void" in q.show(a["body"])
+                    aware = any(y["k"] in ("Path", "PPath") and y.get("p") == "Type::Void" for y in W(a["body"])) or "Type::Void" in q.show(a["body"]) or any(y["k"] in ("Macro", "PMacro") and "Type::Void" in q.show(y) for y in W(a["body"]))
                     r.ob(aware, f"pat_exhaustiveness.rs:from_ast_pat:Variant:{form}:void-payload-becomes-a-column", EXH, a["l"],
                          f"from_ast_pat, {form} payload: the column types give a variant with a void payload no column, so its sub-pattern must not become a field: otherwise every later column of the row is shifted by one and a non-exhaustive match over a tuple is accepted",
                          sample=f"from_ast_pat: {form} payload drops a void sub-pattern")
@@ -763,3 +780,61 @@ def binding_pat_total(ctx, r):
                              f"{fname}: the pattern of `{v}` binds its variables without any test at run time, but the pass never asks whether it matches every value: `let (option.some(s), n) = (o, 1)` is accepted and, for `o = none`, `s` is bound to whatever lies in the payload slot (internal 'expected string but got int' fault)",
                              sample=f"{fname}: {v} pattern analysed by {sorted(analysers)}")
     r.count("binding patterns met by the exhaustiveness pass", n, 2, EXH)
+
+
+@rule("SUBST-DEEP", ["C13", "C12", "C04"], "instantiating a declared type with the column's type arguments reaches type parameters at any depth: the substitution recurses into every composite type unconditionally")
+def subst_deep(ctx, r):
+    TCF = "abra_core/src/statics/typecheck.rs"
+    tc = ctx.file_items(TCF)
+    st = q.find_enum(tc, "SolvedType") if tc else None
+    if st is None:
+        r.missing("enum SolvedType", TCF)
+        return
+    composite = {v["name"]: [i for i, fl in enumerate(v["fields"]) if "SolvedType" in fl["ty"]] for v in st["variants"]}
+    composite = {k: v for k, v in composite.items() if v}
+    r.count("composite type constructors", len(composite), 3, TCF)
+    n = 0
+    for file in (EXH,):
+        items = ctx.file_items(file)
+        if items is None:
+            r.missing(file)
+            continue
+        short = file.split("/")[-1]
+        for f, _ in q.iter_items(items):
+            if f["k"] != "Fn" or f.get("body") is None:
+                continue
+            ps = [p for p in f["params"] if not p.get("self")]
+            if not (any("HashMap<PolytypeDeclaration" in p.get("ty", "").replace(" ", "") for p in ps) and (f.get("ret") or "").strip() in ("Type", "SolvedType")):
+                continue
+            rec = lambda node: [c for c in q.walk(node) if c["k"] == "Call" and c["f"]["k"] == "Path" and q.last_seg(c["f"]["p"]) == f["name"]]  # noqa: E731
+            if not rec(f["body"]):
+                continue
+            for m in q.walk(f["body"]):
+                if m["k"] != "Match":
+                    continue
+                handled = {}
+                for a in m["arms"]:
+                    for h in q.pat_heads(a["pat"]):
+                        if "::" in h and q.last_seg(h) in composite:
+                            handled[q.last_seg(h)] = a
+                if not handled:
+                    continue
+                for v, slots in sorted(composite.items()):
+                    n += 1
+                    a = handled.get(v)
+                    key = f"{short}:{f['name']}:{v}"
+                    if a is None:
+                        r.find(key + ":not-descended", file, m["l"], f"{f['name']}: types built with `{v}` are returned as they are; a type parameter inside one (`option<(int, T)>`) is never replaced, so the column is treated as an open type and exhaustive listings of it are not recognised")
+                        continue
+                    r.ob(a.get("guard") is None, key + ":conditional-descent", file, a["l"],
+                         f"{f['name']}: the arm for `{v}` descends only `if {q.show(a['guard']) if a.get('guard') else ''}`: a type parameter nested one level deeper than the test looks (`option<(int, T)>`, `option<option<T>>`) keeps its variable, the sub-column counts as an open type, `true` plus `false` no longer cover it and an unreachable catch-all arm after them goes unreported",
+                         sample=f"{f['name']}: {v} rebuilt unconditionally")
+                    # every type-valued component of the constructor goes through the recursion
+                    binds = []
+                    for p in q.walk(a["pat"]):
+                        if p["k"] == "PTupleStruct" and q.last_seg(p["p"]) == v:
+                            binds = [q.pat_bindings(p["elems"][i]) for i in slots if i < len(p["elems"])]
+                    fed = {i_ for c in rec(a["body"]) for i_ in q.idents_in(c)} | {i_ for c in q.walk(a["body"]) if c["k"] == "MethodCall" and c["m"] in ("map", "for_each") and rec(c) for i_ in q.idents_in(c["recv"])}
+                    r.ob(all(b and b[0] in fed for b in binds), key + ":component-not-substituted", file, a["l"],
+                         f"{f['name']}: a type-valued component of `{v}` ({binds}) does not go through the substitution", sample=f"{f['name']}: every component of {v} substituted")
+    r.count("(substitution function, composite constructor) pairs", n, 3, EXH)
